@@ -351,6 +351,11 @@ func (c *Check) readerFraming(rule string) {
 			c.require(hit == nil, "C08.1 nothing-after-fault", "fsm.read", "select offering reader error", p.InstrPos(in), "after a fault is reported the reader returns: no further read or hand-off is reachable")
 		}
 	}
+}
+
+// readerHandoff: per-connection rendezvous channels and a re-armed Once.
+func (c *Check) readerHandoff() {
+	p := c.P
 	// channels are rendezvous channels: a buffered message channel would let a
 	// later fault overtake earlier messages
 	if sr := p.Fn("fsm.startReading"); sr != nil {
